@@ -339,6 +339,16 @@ def build_mtl(spec: dict) -> MTLProgram:
         for j, p in enumerate(own):
             fk = features[rng.randrange(n_feat)]
             loss = loss + (p.sum() * (j + 1.0 + i)) * fk.sum() + (p * p).sum() * 0.5
+        if spec.get("twin_bias") and rng.random() < 0.7:
+            # two same-shaped parameters that enter through ONE addition: autograd hands the very same gradient tensor (dense, or an
+            # expanded stride-0 one after sum()) to both of them
+            sh = rng.choice([(2,), (3,), (2, 2)])
+            b = _rand_tensor(rng, sh, dtype).requires_grad_(True)
+            c = _rand_tensor(rng, sh, dtype).requires_grad_(True)
+            own += [b, c]
+            pool_params += [b, c]
+            loss = loss + ((b + c).sum() if rng.random() < 0.5 else ((b + c) * (_rand_tensor(rng, sh, dtype) + 2.0)).sum())
+            tags.append("/TWIN")
         losses.append(loss)
         tasks_params.append(own)
         desc.append(f"T{i}:{len(own)}p{''.join(tags)},f{used_feats}")
